@@ -232,3 +232,12 @@ func zzSameDigest(a, b map[string]string) bool {
 	}
 	return true
 }
+
+func zzBaseServices() (map[string]*api.Service, map[string]*api.Endpoints) {
+	svcs, eps := map[string]*api.Service{}, map[string]*api.Endpoints{}
+	for i, n := range zzSvcs {
+		svc, ep := zzSvc(n, []string{"10.0.0.1", "10.0.0.2"}[i])
+		svcs["default/"+n], eps["default/"+n] = svc, ep
+	}
+	return svcs, eps
+}
